@@ -366,6 +366,11 @@ func Run(args []string) *rep.Report {
 		if idx%sn != si {
 			return nil
 		}
+		if len(r.Divergences) >= 8 {
+			// enough confirmed divergences in this shard: the verdict is settled, the remaining behaviours would only cost time
+			r.AddExtra("skipped_after_divergences", 1)
+			return nil
+		}
 		b := new(behaviour)
 		if err := json.Unmarshal(line, b); err != nil {
 			return err
